@@ -541,6 +541,13 @@ impl<'p, C: SimCfg> World<'p, C> {
                         }
                         continue;
                     }
+                    // a node that blocked in the lockstep wait loop is still inside that call: its next
+                    // tick cannot start before the call returned
+                    if t < self.nodes[i].clock_floor {
+                        let at = self.nodes[i].clock_floor;
+                        self.heap.push(Reverse((at, CL_TICK, a, b, 0)));
+                        continue;
+                    }
                     let nt = self.next_tick_time(i, t, b);
                     self.heap.push(Reverse((nt, CL_TICK, a, b + 1, 0)));
                     self.sched.add_all(&[3, a]);
